@@ -200,7 +200,7 @@ def gen_cases(rng, tier):
     n = {"quick": 4000, "thorough": 60000, "search": 6000}[tier]
     for _ in range(n):
         root = ROOTS[0] if rng.random() < 0.45 else rng.choice(ROOTS)
-        dflt = rng.choice(["index.html", "index.html", None, "b.txt", "index.dir"])
+        dflt = rng.choice(["index.html", "index.html", "index.html", None, None, "b.txt", "index.dir", "...", "..a", "sp ace.txt", "c.txt"])
         pat = rng.choice(PATS)
         lead = {"/*": rng.choice(["", "/", "//", "///"]), "": rng.choice(["", "/", "/", "//"])}.get(pat, pat)
         target = lead + _rand_path(rng)
@@ -214,7 +214,10 @@ def gen_cases(rng, tier):
             target = target[:i] + rng.choice(CTRL) + target[i:]
         if target == "":
             target = rng.choice(["", "/"])
-        yield {"root": root, "default": dflt, "pat": pat, "target": target}
+        c = {"root": root, "default": dflt, "pat": pat, "target": target}
+        if rng.random() < 0.15:
+            c["method"] = "HEAD"
+        yield c
 
 
 # ------------------------------------------------------------------ implementation
@@ -251,9 +254,31 @@ class _Record:
 
     def __init__(self):
         self.calls = []
+        self.opened = []     # ["open"|"stat", path]: builtins.open / os.stat called from web.py (get_content, _stat)
 
     def __enter__(self):
-        import posixpath
+        import posixpath, builtins
+        from tornado import web
+        self.saved_os = web.os
+        rec = self
+
+        class _Os:      # web.py's view of `os`: stat is recorded, everything else passes through
+            def __getattr__(self, name):
+                return getattr(rec.saved_os, name)
+
+            def stat(self, p, *a, **k):
+                rec.opened.append(["stat", p if isinstance(p, str) else repr(p)])
+                return rec.saved_os.stat(p, *a, **k)
+
+        web.os = _Os()
+        self.saved_open = builtins.open
+
+        def _open(p, *a, **k):
+            if sys._getframe(1).f_code.co_filename.endswith(os.sep + "web.py"):
+                rec.opened.append(["open", p if isinstance(p, str) else repr(p)])
+            return rec.saved_open(p, *a, **k)
+
+        web.open = _open     # module-level name shadows the builtin for web.py only
         self.saved = {n: getattr(posixpath, n) for n in ("isdir", "exists", "isfile")}
         for n, f in self.saved.items():
             def wrap(p, _n=n, _f=f):
@@ -265,6 +290,9 @@ class _Record:
 
     def __exit__(self, *a):
         import posixpath
+        from tornado import web
+        web.os = self.saved_os
+        del web.open
         for n, f in self.saved.items():
             setattr(posixpath, n, f)
 
@@ -279,7 +307,7 @@ def run_impl(case):
         args["default_filename"] = case["default"]
     web.StaticFileHandler.reset()
     app = web.Application([(_pat_regex(case["pat"]), web.StaticFileHandler, args)])
-    raw = b"GET " + target.encode("latin1") + b" HTTP/1.1\r\nHost: h\r\n\r\n"
+    raw = case.get("method", "GET").encode() + b" " + target.encode("latin1") + b" HTTP/1.1\r\nHost: h\r\n\r\n"
     with _Record() as rec:
         out = _http(app, raw)
     status, hdrs, body = _parse_response(out)
@@ -289,7 +317,14 @@ def run_impl(case):
             loc = [loc[0].encode("latin1").decode("utf-8")]
         except UnicodeDecodeError:
             pass
-    return {"status": status, "location": loc[0] if loc else None, "body": body.hex(), "queries": rec.calls}
+    clen = [v for k, v in hdrs if k == "content-length"]
+    return {"status": status, "location": loc[0] if loc else None, "body": body.hex(), "queries": rec.calls,
+            "clen": int(clen[0]) if clen and clen[0].isdigit() else None, "opened": rec.opened}
+
+
+def impl_view(case, impl):
+    """what the model predicts: status, Location, body, the isdir/exists/isfile queries (open/stat and Content-Length are for the oracle)"""
+    return {k: v for k, v in impl.items() if k not in ("clen", "opened")}
 
 
 # ------------------------------------------------------------------ model
@@ -339,12 +374,14 @@ def model_result(case, replies):
             assert kind == "badRequest"
             out["body"] = ""
     out["queries"] = qs
+    if case.get("method", "GET") == "HEAD" and not (kind == "badRequest" and out["body"] == ""):
+        out["body"] = ""      # HEAD: same outcome, headers only
     return out
 
 
 # ------------------------------------------------------------------ property oracle
 def _touched(case, impl):
-    return [q[1] for q in impl["queries"]]
+    return [q[1] for q in impl["queries"]] + [q[1] for q in impl.get("opened", [])]
 
 
 _REQUEST_TARGET = re.compile(r"[\x21-\x7e\x80-\xff]+")     # RFC 9112 request-target as tornado.httputil._ABNF spells it
@@ -401,6 +438,10 @@ def spec_violation(case, impl, replies):
                 want = _FILES[den[2]]
             elif kind == "dir" and case["default"] is not None:
                 want = _FILES.get(os.path.join(den[2], case["default"]))
+            if case.get("method", "GET") == "HEAD" and want is not None:
+                if body != b"" or impl.get("clen") != len(want):
+                    return "HEAD 200 does not describe the denoted file (Content-Length %r)" % impl.get("clen")
+                return None
             if want is None or body != want:
                 where = [p for p, d in _FILES.items() if d == body]
                 return "200 with content that is not the denoted file (%s)" % (where[0].replace(_fx(), "{FX}") if where else "unknown content")
@@ -434,6 +475,8 @@ def stats(case, impl):
         if tok in t:
             out.append("has:" + lab)
     out.append("pat:" + (case["pat"] or "(.*)"))
+    out.append("method:" + case.get("method", "GET"))
+    out.append("opened:%d" % len(impl.get("opened", [])))
     out.append("denotes:" + _denoted(case)[0])
     return out
 
